@@ -23,6 +23,7 @@ mod memdims;
 mod repair;
 mod util;
 mod writer;
+mod wrows;
 
 use serde_json::json;
 use util::*;
@@ -109,6 +110,14 @@ fn main() {
         "c12-cli" => cli::c12_cli_cases(&mut rng, &tier, &mut out),
         "c13" => history::c13_cases(&mut rng, &tier, &mut out),
         "c14" => history::c14_cases(&mut rng, &tier, &mut out),
+        "c06-gcmdec" => wrows::c06_gcmdec_cases(&mut rng, &tier, &mut out),
+        "c13-sinkrows" => wrows::c13_sinkrows_cases(&mut rng, &tier, &mut out),
+        #[cfg(feature = "scaled")]
+        "c01-encw" => wrows::c01_encw_cases(&mut rng, &tier, &mut out),
+        #[cfg(feature = "scaled")]
+        "c13-encsink" => wrows::c13_encsink_cases(&mut rng, &tier, &mut out),
+        #[cfg(feature = "scaled")]
+        "c01-aw" => wrows::c01_aw_cases(&mut rng, &tier, &mut out),
         #[cfg(feature = "scaled")]
         "c11-comp" => comp::c11_comp_cases(&mut rng, &tier, &mut out),
         #[cfg(feature = "scaled")]
